@@ -312,3 +312,42 @@ func ruleHostPorts(c *Ctx, rule string) {
 		}
 	}
 }
+
+// C14.R6 — the sockets a failed OpenHostports closes are exactly those it opened itself; the saved port file is
+// removed only after the mappings it describes were removed.
+func ruleHostPortOwnership(c *Ctx, rule string) {
+	if fn := c.MustFn(rule, pmPkg, "(*PortMappingHandler).OpenHostports"); fn != nil {
+		n := 0
+		allInstrs(fn, func(in ssa.Instruction) {
+			mu, ok := in.(*ssa.MapUpdate)
+			if !ok || pathEndsWith(mu.Map, "podPortMap") {
+				return
+			}
+			if !isMapType(mu.Map.Type()) {
+				return
+			}
+			n++
+			c.ob(rule, fn, "the per-call socket map holds only sockets opened by this call", mu, isResultOf(mu.Value, 0, pmPkg+".openLocalPort"), "ports[hp] = <result of openLocalPort>: the clean-up on failure closes this map, so it must not contain sockets the pod already held")
+		})
+		if n == 0 {
+			c.undecided(rule, fn, "per-call socket map", nil, "no update of a local socket map found")
+		}
+	}
+	if fn := c.MustFn(rule, galaxyPkg, "(*Galaxy).cleanIPtables"); fn != nil {
+		cl := calls(fn, "(*PortMappingHandler).CleanPortMapping")
+		rm := callsDeep(fn, "pkg/api/k8s.RemovePortFile")
+		if len(cl) != 1 || len(rm) == 0 {
+			c.undecided(rule, fn, "CleanPortMapping / RemovePortFile", nil, "expected calls not found")
+		} else {
+			for _, r := range rm {
+				okR := r.Parent() == fn
+				if okR {
+					_, isDefer := r.(*ssa.Defer)
+					ok, dec := onlyAfterSuccess(fn, cl[0], r)
+					okR = !isDefer && ok && dec
+				}
+				c.ob(rule, fn, "the saved port file is removed only after the mappings were removed", r, okR, "RemovePortFile is reachable only through the err==nil edge of CleanPortMapping (a failed clean-up is retried by DEL / GC from the same file)")
+			}
+		}
+	}
+}
